@@ -26,7 +26,18 @@ class CaseSet:
             return
         results, logs = common.run_cases(self.pid, [t for _, t, _ in self.items], header=HDR, shard=shard, timeout=timeout)
         nfail = 0
+        ntime = sum(1 for r in results if isinstance(r, str) and r == common.TIMEOUT)
+        if ntime:
+            self.rep.count("coq-timeout", ntime)
+            self.rep.notes.append(f"{ntime} of {len(results)} correspondence cases were not evaluated within {timeout}s by coqc (skipped samples)")
+        too_many = ntime > max(1, len(results) // 20)
         for (desc, _, interp), res in zip(self.items, results):
+            if isinstance(res, str) and res == common.TIMEOUT:
+                if too_many:
+                    nfail += 1
+                    self.rep.violation("coq-eval-timeout", "more than 5% of the correspondence cases could not be evaluated by coqc within the time limit",
+                                       {"case": desc, "timeouts": ntime, "cases": len(results)}, found_input=False)
+                continue
             if res is None:
                 nfail += 1
                 self.rep.violation("coq-eval-failed", "a correspondence case file could not be evaluated by coqc",
